@@ -112,10 +112,15 @@ func fiExec(enc *json.Encoder, t int, ops []fiOp, contents map[int][]byte, readS
 	for _, op := range ops {
 		full := filepath.Join(dir, filepath.FromSlash(op.P))
 		switch op.Op {
-		case "Write":
+		case "Write", "WriteOld":
 			os.MkdirAll(filepath.Dir(full), 0o755)
 			os.WriteFile(full, contents[op.C], 0o644)
 			m, tm := tick()
+			if op.Op == "WriteOld" {
+				// restored file: an older, never used, modification time
+				m = -m
+				tm = fiBase.Add(time.Duration(m) * time.Second)
+			}
 			os.Chtimes(full, tm, tm)
 			enc.Encode(map[string]interface{}{"t": t, "ev": "Write", "p": op.P, "c": op.C, "m": m})
 		case "Remove":
